@@ -84,7 +84,11 @@ pub fn log_equals(o: &Out) -> bool {
 pub fn any_regs() -> Regs {
   let r = Regs { a: kani::any(), f: kani::any::<u8>() & 0xf0, b: kani::any(), c: kani::any(), d: kani::any(), e: kani::any(), h: kani::any(), l: kani::any(), sp: kani::any(), pc: kani::any() };
   // the whole instruction lies inside one executable region: ROM, work RAM or high RAM
-  kani::assume(r.pc <= 0x7ffc || (r.pc >= 0xc000 && r.pc <= 0xdffc) || (r.pc >= 0xff80 && r.pc <= 0xfffc));
+  // (a fetch never crosses a ROM bank boundary at 0x4000 or a work-RAM bank boundary at 0xd000: the fetch view ends there)
+  let rom = r.pc <= 0x7ffc && (r.pc & 0x3fff) <= 0x3ffc;
+  let wram = r.pc >= 0xc000 && r.pc <= 0xdffc && (r.pc & 0x0fff) <= 0x0ffc;
+  let hram = r.pc >= 0xff80 && r.pc <= 0xfffc;
+  kani::assume(rom || wram || hram);
   r
 }
 pub fn to_registers(r: &Regs, cycles: u32) -> Registers {
